@@ -613,6 +613,30 @@ static void op_rwunlock(actor *a, int r)
     int rc = ABT_rwlock_unlock(G.rwlock[r]);
     CHECK_RC(rc, "ABT_rwlock_unlock");
 }
+/* many read holds at once (the library does not track who holds a read lock, so nested
+ * holds of one ULT count like as many readers) */
+static void op_rdlockn(actor *a, int r, long n)
+{
+    (void)a;
+    for (long i = 0; i < n; i++) {
+        int rc = ABT_rwlock_rdlock(G.rwlock[r]);
+        CHECK_RC(rc, "ABT_rwlock_rdlock");
+        if (ALOAD(rw_writers[r]) != 0)
+            viol("rwlock %d: reader acquired while a writer holds the lock", r);
+        AINC(rw_readers[r]);
+    }
+    stat_add("rdlocks", n);
+    stat_max("max_read_holds", n);
+}
+static void op_rwunlockn(actor *a, int r, long n)
+{
+    (void)a;
+    for (long i = 0; i < n; i++) {
+        ADEC(rw_readers[r]);
+        int rc = ABT_rwlock_unlock(G.rwlock[r]);
+        CHECK_RC(rc, "ABT_rwlock_unlock");
+    }
+}
 static void op_rwlock_rej(actor *a, int r, int wr)
 {
     (void)a;
